@@ -630,11 +630,12 @@ func (e *EnumType) Set(name string, value int64) error {
 	if value > e.max {
 		return fmt.Errorf("value %d for %s too large (maximum is %d)", value, name, e.max)
 	}
-	e.ToString[value] = name
-	e.ToInt[name] = value
-	if value >= e.last {
+	if len(e.ToInt) == 0 || value >= e.last {
+		// The first value assigned is the highest so far, even when negative.
 		e.last = value
 	}
+	e.ToString[value] = name
+	e.ToInt[name] = value
 	return nil
 }
 
